@@ -4,5 +4,6 @@ CONSTANTS
   MaxCrash = 3
   Guard = TRUE
   Tiny = FALSE
+  Queued = FALSE
   GenLen = 12
 CHECK_DEADLOCK FALSE
